@@ -24,6 +24,9 @@ type c20Case struct {
 	// SwapAt > 0: the application calls SetTracer with another tracer while the
 	// connection waits for input with exactly SwapAt bytes consumed (a request
 	// boundary). NoFirst: no tracer was installed before that.
+	// CloseAt > 0: the application closes the connection (the *redis.Conn it finds in the
+	// registry, as Stop does) while the loop waits for input with exactly CloseAt bytes consumed.
+	CloseAt int  `json:"app_close_at,omitempty"`
 	SwapAt  int  `json:"swap_tracer_at,omitempty"`
 	NoFirst bool `json:"no_first_tracer,omitempty"`
 }
@@ -52,6 +55,17 @@ func c20Check(cs c20Case) (clause, detail string) {
 	}
 	conn := seq.NewConn(seq.Script{Input: in, End: end, FailWriteFrom: cs.FailWrite})
 	tr2 := srv.NewTracer()
+	if cs.CloseAt > 0 {
+		closed := false
+		conn.OnRead = func(delivered int, starving bool) {
+			if !closed && delivered == cs.CloseAt {
+				closed = true
+				for _, rc := range s.Conns() {
+					rc.Close()
+				}
+			}
+		}
+	}
 	if cs.SwapAt > 0 {
 		swapped := false
 		conn.OnRead = func(delivered int, starving bool) {
@@ -156,6 +170,15 @@ func c20Run(c *fw.Ctx) {
 			run(c20Case{Input: it.Bytes, Labels: []string{it.Label}, Cut: cut}, name+"|"+it.Kind+"|cut")
 			run(c20Case{Input: it.Bytes, Labels: []string{it.Label}, Cut: cut, Reset: true}, name+"|"+it.Kind+"|cut-reset")
 		}
+	}
+	// the application (or Stop) closes the connection while it waits for the next request
+	for _, it := range cat {
+		if !c.Mine() || it.Kind == "quit" {
+			continue
+		}
+		name := it.Label[:strings.IndexByte(it.Label, '|')]
+		in := concat(it.Bytes, grammar.Encode([]string{"PING"}))
+		run(c20Case{Input: in, Labels: []string{it.Label, "PING"}, Cut: -1, CloseAt: len(it.Bytes)}, name+"|"+it.Kind+"|closed-by-application")
 	}
 	// SetTracer while the connection is open: before and after every catalogue request
 	ping := grammar.Encode([]string{"PING"})
